@@ -4,17 +4,35 @@ from .common import TB_COMMON
 TB_SSZ = [
     "the SSZ rules in lean/Zrnt/SSZ (Type, Layout, Codec, Merkle): transcription of simple-serialize.md",
     "the per-fork schema transcription lean/Zrnt/Schema/Spec*.lean (hand-written from the published consensus specifications; oracle for 'canonical encoding defined by the specification's schema')",
-    "extract/sszfacts (go/ast): lists every Go type with the SSZ method set; generates both Zrnt.Gen.SszFacts and the harness registry",
+    "extract/sszfacts (go/ast): lists every Go type with the SSZ method set; recognises method bodies and view type definitions from a closed set of shapes (others are opaque, counted in ssz_facts); generates both Zrnt.Gen.SszFacts and the harness registry",
+    "Zrnt.Schema.Facts.checkType (the decision procedure the table theorems are about) incl. the polynomial normal form used to compare limit expressions for all configurations",
     "ztyp (codec, views, tree), encoding/json, yaml.v3: dependencies, exercised through zrnt by the correspondence, not verified",
     "harness framing convention: an input counts as accepted by Go only if Deserialize returns nil and read every byte of its scope",
 ]
 
+def facts_coverage(ctx):
+    """Recognised/opaque counts of the regenerated SSZ facts table (what the table theorems do not cover)."""
+    import os, re
+    p = os.path.join(os.path.dirname(os.path.dirname(os.path.dirname(os.path.abspath(__file__)))), "lean", "Zrnt", "Gen", "SszFacts.lean")
+    try:
+        src = open(p).read()
+    except OSError:
+        return {}
+    m = re.search(r"def opaqueMethods : List String := \[(.*?)\]", src, re.S)
+    opaque = re.findall(r'"([^"]+)"', m.group(1)) if m else []
+    return dict(ssz_facts=dict(go_types=len(re.findall(r"^def T_", src, re.M)), view_type_defs=len(re.findall(r"^def V_", src, re.M)),
+                               method_bodies=5 * len(re.findall(r"^def T_", src, re.M)), opaque_method_bodies=len(opaque),
+                               opaque_list=opaque, row_obligations=len(re.findall(r"^theorem row_ok_", src, re.M))))
+
+
 PROPS = {"C04": dict(
+    custom=facts_coverage,
     module="Proofs.Properties.C04",
     theorems=["Zrnt.Proofs.C04.decode_encode", "Zrnt.Proofs.C04.encode_size_eq_byteLength",
               "Zrnt.Proofs.C04.fixedLen_iff_isFixed", "Zrnt.Proofs.C04.encode_size_of_isFixed",
               "Zrnt.Proofs.C04.decode_some_imp_canonical", "Zrnt.Proofs.C04.decode_injective",
-              "Zrnt.Proofs.C04.decode_list_within_limit", "Zrnt.Proofs.C04.encode_injective"],
+              "Zrnt.Proofs.C04.decode_list_within_limit", "Zrnt.Proofs.C04.encode_injective",
+              "Zrnt.Proofs.C04.ssz_methods_agree", "Zrnt.Proofs.C04.ssz_types_complete"],
     modes=[dict(name="ssz")],
     level="proof",
     trusted_base=TB_COMMON + TB_SSZ,
